@@ -23,6 +23,17 @@ import (
 
 var traceE2E bool
 
+// recvObs is one message received by a broker worker (hook bp.recv) and what the worker did with it.
+type recvObs struct {
+	Flags    int
+	Closing  bool
+	Retrying bool
+	Obs      int // 0 nothing (syn), 1 bounced, 2 went on to add, 3 add refused it
+	msg      *sarama.ProducerMessage
+}
+
+var recvLog []*recvObs // filled by runE2E, written as a case family of its own by main
+
 const (
 	fOk = iota
 	fRetriable
@@ -56,6 +67,7 @@ type e2eScenario struct {
 	RetryMax    int
 	AcksAll     bool
 	Start       map[string]int64
+	Steer       string // "chaser": the steered replay of the marker-accepted witness (see chaserWitness)
 }
 
 type reqPart struct {
@@ -290,7 +302,13 @@ type scriptPartitioner struct {
 }
 
 func (p *scriptPartitioner) Partition(msg *sarama.ProducerMessage, n int32) (int32, error) {
-	id := msg.Metadata.(int64)
+	id, ok := msg.Metadata.(int64)
+	if !ok { // not an application message: an internal marker is being partitioned
+		p.mu.Lock()
+		*p.calls = append(*p.calls, partCall{-1, n})
+		p.mu.Unlock()
+		return 0, nil
+	}
 	p.mu.Lock()
 	*p.calls = append(*p.calls, partCall{id, n})
 	p.mu.Unlock()
@@ -298,7 +316,8 @@ func (p *scriptPartitioner) Partition(msg *sarama.ProducerMessage, n int32) (int
 }
 func (p *scriptPartitioner) RequiresConsistency() bool { return false }
 func (p *scriptPartitioner) MessageRequiresConsistency(msg *sarama.ProducerMessage) bool {
-	return p.s.Consistent[msg.Metadata.(int64)-1]
+	id, ok := msg.Metadata.(int64)
+	return ok && p.s.Consistent[id-1]
 }
 
 // ---------------------------------------------------------------- generation
@@ -430,9 +449,31 @@ func genE2E(r *rand.Rand, i int) *e2eScenario {
 	return s
 }
 
+// chaserWitness: the steered replay of the known finding wire:marker-accepted:idempotent.  Idempotent producer, one
+// partition; m1's request is answered NotEnoughReplicas, retryBatch re-sends the batch itself (held at the bridge);
+// m2 is bounced by the broker worker (currentRetries set) and takes the partition worker to level 1 (held there);
+// the re-sent batch goes out, the connection drops: handleError abandons the broker and re-queues m1 with retries 2;
+// the partition worker continues on a NEW broker worker; m1 arrives with retries 2 > 1, the chaser of level 2 is sent
+// to that healthy worker (after m2's batch has been acknowledged, so that the worker's buffer is empty and the marker
+// starts a batch of its own instead of tripping add's sequence assertion), which hands it to buffer.add.
+func chaserWitness() *e2eScenario {
+	ts := time.Unix(1600000000, 0)
+	s := &e2eScenario{Cfg: genCfg{Gen: 2, Codec: 0, Level: sarama.CompressionLevelDefault, Idem: true, Pid: 4711, Epoch: 0},
+		Brokers: 1, Parts: []int{1}, LeaderlessA: []map[int32]bool{{}}, LeaderlessB: []map[int32]bool{{}},
+		RetryMax: 3, FlushMsgs: 0, AcksAll: true, Start: map[string]int64{"t0/0": 1004}, Steer: "chaser",
+		Script: []fault{{Kind: fRetriable, Err: 19, Only: -1}, {Kind: fDropBefore, Only: -1}}}
+	for j := 0; j < 2; j++ {
+		s.Msgs = append(s.Msgs, &genMsg{ID: int64(j + 1), Topic: 0, Key: []byte(fmt.Sprintf("k%d", j+1)), Val: []byte(fmt.Sprintf("%d:v", j+1)),
+			TS: ts.Add(time.Duration(j) * time.Second), KeyClass: "corpus", ValClass: "id"})
+		s.Choice = append(s.Choice, 0)
+		s.Consistent = append(s.Consistent, false)
+	}
+	return s
+}
+
 func e2eCorpus() []*e2eScenario {
 	ts := time.Unix(1600000000, 0)
-	var out []*e2eScenario
+	out := []*e2eScenario{chaserWitness()}
 	for gen := 0; gen < 4; gen++ {
 		for _, idem := range []bool{false, true} {
 			if idem && gen < 2 {
@@ -500,11 +541,36 @@ func runE2E(s *e2eScenario) (string, cf.Sidecar) {
 	firstPart := map[int64]int32{}
 	var hookFail *cf.Monitor
 	markerAccepted := false
-	sarama.VerifC04Observe(func(h sarama.VerifC04Hook) {
+	current := map[interface{}]*recvObs{} // per broker worker: the message it is handling
+	classify := func(h sarama.VerifC04Hook, obs int) {
+		for _, r := range current {
+			if r.msg == h.Msg && r.Obs == 0 && (h.BP == nil || current[h.BP] == r) {
+				r.Obs = obs
+			}
+		}
+	}
+	observe := func(h sarama.VerifC04Hook) {
 		hmu.Lock()
 		defer hmu.Unlock()
 		switch h.Kind {
+		case "bp.recv":
+			r := &recvObs{Flags: h.Flags, Closing: h.Closing, Retrying: h.Retrying, msg: h.Msg}
+			current[h.BP] = r
+			recvLog = append(recvLog, r)
+		case "bp.waitForSpace":
+			classify(h, 2)
+		case "retry.enqueue":
+			classify(h, 1)
+		case "return.error":
+			if h.AddErr {
+				classify(h, 3)
+			} else {
+				classify(h, 1)
+			}
+		}
+		switch h.Kind {
 		case "bp.add":
+			classify(h, 2)
 			if h.Flags != 0 && hookFail == nil {
 				mode := "plain"
 				if s.Cfg.Idem {
@@ -524,8 +590,64 @@ func runE2E(s *e2eScenario) (string, cf.Sidecar) {
 				hookFail = &cf.Monitor{Signature: "route:changed-on-retry", What: fmt.Sprintf("message %d: partition %d on the first pass, %d on pass %d", id, fp, h.Partition, h.Retries)}
 			}
 		}
-	})
+	}
+	atGateA, ppAtHWM, requeued := make(chan struct{}), make(chan struct{}), make(chan struct{})
+	if s.Steer == "chaser" {
+		var onceA, onceB, onceC, onceD, onceE sync.Once
+		m2Done := make(chan struct{})
+		wait := func(ch chan struct{}) {
+			select {
+			case <-ch:
+			case <-time.After(3 * time.Second):
+			}
+		}
+		sarama.VerifC04Steer(func(h sarama.VerifC04Hook) {
+			switch h.Kind {
+			case "bridge.send": // the batch retryBatch re-sends (its messages have retries >= 1): hold it until the partition worker sees the bounced m2
+				retry := false
+				for _, p := range h.Set {
+					for _, r := range p.Retries {
+						retry = retry || r >= 1
+					}
+				}
+				if retry {
+					onceA.Do(func() { close(atGateA); wait(ppAtHWM) })
+				}
+			case "pp.newHWM": // the partition worker enters level 1: hold it until the connection has dropped and m1 is re-queued with retries 2
+				if h.HWM == 1 {
+					onceB.Do(func() { close(ppAtHWM); wait(requeued) })
+				}
+				if h.HWM == 2 { // ... and before the chaser of level 2 is sent, until m2's batch has left the new worker's buffer
+					onceD.Do(func() { wait(m2Done) })
+				}
+			case "return.success", "return.error": // m2 has its outcome (a faithful broker refuses sequence 1 before 0)
+				if h.Msg != nil {
+					if id, ok := h.Msg.Metadata.(int64); ok && id == 2 {
+						onceE.Do(func() { close(m2Done) })
+					}
+				}
+			case "rh.recv":
+				if h.Msg != nil && h.Retries == 2 && h.Flags == 0 {
+					onceC.Do(func() { close(requeued) })
+				}
+			}
+			observe(h)
+		})
+	} else {
+		sarama.VerifC04Observe(observe)
+	}
 	defer sarama.VerifC04Observe(nil)
+	// a run-time panic in one of the producer's goroutines: recorded (and reported with this scenario as the failing
+	// input) instead of killing the harness
+	sarama.PanicHandler = func(v interface{}) {
+		hmu.Lock()
+		if hookFail == nil {
+			hookFail = &cf.Monitor{Signature: "e2e:library-panic", What: fmt.Sprintf("a producer goroutine panicked: %v", v)}
+		}
+		markerAccepted = true // evaluate nothing else in this scenario
+		hmu.Unlock()
+	}
+	defer func() { sarama.PanicHandler = nil }()
 	if traceE2E {
 		sarama.VerifC04Trace(func(line string) { fmt.Fprintln(os.Stderr, "TRACE", line) })
 	}
@@ -596,7 +718,13 @@ func runE2E(s *e2eScenario) (string, cf.Sidecar) {
 			hang = "NewAsyncProducer: " + err.Error()
 		} else {
 			go func() {
-				for _, pm := range pms {
+				for i, pm := range pms {
+					if s.Steer == "chaser" && i == 1 {
+						select { // m2 is submitted once the re-sent batch of m1 stands at the bridge
+						case <-atGateA:
+						case <-time.After(3 * time.Second):
+						}
+					}
 					p.Input() <- pm
 				}
 			}()
@@ -673,6 +801,10 @@ func runE2E(s *e2eScenario) (string, cf.Sidecar) {
 	desc["marker_events"] = markerEvents
 	offered := map[int64]int32{}
 	for _, pc := range calls {
+		if pc.ID < 0 {
+			fail("route:marker-partitioned", "the partitioner was asked about an internal marker")
+			continue
+		}
 		if _, twice := offered[pc.ID]; twice {
 			fail("route:partitioned-twice", fmt.Sprintf("the partitioner was asked twice about message %d", pc.ID))
 		}
